@@ -37,7 +37,7 @@ PROPS = {
             'prost: FileDescriptorSet::decode and Message::encode are uninterpreted (A-prost-02/03), so "decodes to what was registered" is covered only up to prost encode/decode being inverse; the descriptor structs are shims with the fields the index reads (A-prost-01)',
             'extensions are not indexed by tonic (FileContainingExtension answers NOT_FOUND): outside the statement',
             'the service list for use_all_service_names == true is proved per file (process_file P3: exactly the declared services in order); ReflectionServiceState::new proves the explicit-names case, the union over files is not restated there',
-            'Builder::{configure, register_*, with_service_name, build_v1, build_v1alpha} (impl Trait return types) are not under contract',
+            'Builder::{configure, register_*, include_reflection_service, with_service_name, build_v1, build_v1alpha} ARE under contract (the service is built over an index of every registered set plus, unless switched off, the protocol own descriptors); the text a chosen service name converts to (`impl Into<String>`) is not specified, and the generated ServerReflectionServer::new is assumed to wrap the service it is given (A-refl-codegen-01)',
         ]),
     'C02': dict(
         units=['encode', 'decode', 'status', 'reqresp', 'metadata', 'clientglue', 'serverglue', 'errmap', 'tbody'], level='proof',
